@@ -250,6 +250,9 @@ class IndexInRun(Harness):
         # two index markets over different (overlapping) sets of components
         out.append({"index_first": False, "n": 3, "two": True})
         out.append({"index_first": True, "n": 3, "two": True})
+        # the index market's id also has an entry of its own in the fundamentals generator (a runner that registers
+        # every configured market): the entry is ignored, the index records the average of its components
+        out.append({"index_first": False, "n": 2, "registered": True})
         return out
 
     def run(self, g, case):
@@ -277,6 +280,8 @@ class IndexInRun(Harness):
                 seen[p.name, p.get_time()] = p.get_fundamental_price()
         ctx = rn.make_run(g, st, {"acts": ["none"]}, on_event=on_event)
         sim = ctx.sim
+        if case.get("registered"):
+            sim.fundamentals.add_market(market_id=sim.name2market["IDX"].market_id, initial=123.0, drift=0.01, volatility=0.0)
         if case["index_first"]:
             # the configuration format only accepts an index declared after its components (its setup reads
             # their outstanding shares); to exercise "index markets are stepped after their components"
